@@ -188,14 +188,18 @@ Definition ty_is (ty : tyspec) (t : jty) : bool := match ty with TyOne u => jty_
 Definition ty_is_list (ty : tyspec) : bool := match ty with TyList _ => true | _ => false end.
 Definition nonempty {A : Type} (l : list A) : bool := match l with [] => false | _ => true end.
 
-Definition array_members (kitems : option kid) (kprefix : list kid) : list kid :=
+(* a member of items / prefixItems, waiting for (revalidated?, name): ListProperty.build wraps SEVERAL tuple members into a new
+   Schema(anyOf=...); handing validated Schema instances to a constructor runs their `after` validators once more (observed with
+   the pinned pydantic), so handle_nullable is applied to each of them again - exactly what happens at a top position *)
+Definition akid := bool -> kid.
+Definition array_members (kitems : option akid) (kprefix : list akid) : list akid :=
   kprefix ++ match kitems with Some k => [k] | None => [] end.
 
 (* ---- the dispatch chain of property_from_data after the single-reference test, in the order of the code.
    enum_case: what the enum branch returns when the enum keyword is present (None = keyword absent);
    tykids: the copies of this schema made for the members of a type list. *)
 Definition dispatch (c : cfg) (parent : str) (ty : tyspec) (enum_case : option tree) (tykids : list kid)
-                    (kany kone : list kid) (has_all : bool) (kitems : option kid) (kprefix : list kid) (fmt : option str)
+                    (kany kone : list kid) (has_all : bool) (kitems : option akid) (kprefix : list akid) (fmt : option str)
                     (d : option jval) (o : other) (name : str) : tree :=
   if ty_is ty JBoolean then TLeaf LBool name d
   else match enum_case with
@@ -212,15 +216,15 @@ Definition dispatch (c : cfg) (parent : str) (ty : tyspec) (enum_case : option t
             No member is ever dropped or merged, equal ones included. *)
          match array_members kitems kprefix with
          | [] => TErr                                   (* type array must have items or prefixItems defined *)
-         | [k] => let i := k (item_name name) in if is_err i then TErr else TList name i
-         | ks => let i := union_build (item_name name) ks None in if is_err i then TErr else TList name i
+         | [k] => let i := k false (item_name name) in if is_err i then TErr else TList name i
+         | ks => let i := union_build (item_name name) (map (fun k => k true) ks) None in if is_err i then TErr else TList name i
          end
   else if ty_is ty JObject || has_all || (match ty with TyAbsent => o_props o | _ => false end) then TModel name (class_of c parent o name)
   else TLeaf LAny name d
   end.
 
 (* data.model_copy(update={"type": t, "default": None}) sent through property_from_data: the copy keeps anyOf/oneOf *)
-Definition type_copies (c : cfg) (parent : str) (ty : tyspec) (kany kone : list kid) (has_all : bool) (kitems : option kid) (kprefix : list kid)
+Definition type_copies (c : cfg) (parent : str) (ty : tyspec) (kany kone : list kid) (has_all : bool) (kitems : option akid) (kprefix : list akid)
                        (fmt : option str) (o : other) : list kid :=
   match ty with
   | TyList l => map (fun t => dispatch c parent (TyOne t) None [] kany kone has_all kitems kprefix fmt None o) l
@@ -239,7 +243,7 @@ Definition k_null : kid := fun n => TLeaf LNone n None.       (* Schema(type=nul
 
 (* the enum branch: enum = the (non-empty) keyword value *)
 Definition enum_branch (c : cfg) (parent : str) (ty : tyspec) (enum : list jval) (kany kone : list kid) (has_all : bool)
-                       (kitems : option kid) (kprefix : list kid) (fmt : option str) (d : option jval) (o : other) (name : str) : tree :=
+                       (kitems : option akid) (kprefix : list akid) (fmt : option str) (d : option jval) (o : other) (name : str) : tree :=
   match enum_build enum with
   | BNoneProp => TLeaf LNone name (Some (JStr s_None))
   | BMixed | BUnsupported => TErr
@@ -252,29 +256,63 @@ Definition enum_branch (c : cfg) (parent : str) (ty : tyspec) (enum : list jval)
   end.
 
 Definition pfd (c : cfg) (parent : str) (ty : tyspec) (enum : list jval) (kany kone : list kid) (has_all : bool)
-               (kitems : option kid) (kprefix : list kid) (fmt : option str) (d : option jval) (o : other) (name : str) : tree :=
+               (kitems : option akid) (kprefix : list akid) (fmt : option str) (d : option jval) (o : other) (name : str) : tree :=
   dispatch c parent ty
            (match enum with [] => None | _ => Some (enum_branch c parent ty enum kany kone has_all kitems kprefix fmt d o name) end)
            (type_copies c parent ty kany kone has_all kitems kprefix fmt o)
            kany kone has_all kitems kprefix fmt d o name.
 
-Fixpoint build (c : cfg) (e : env) (parent : str) (s : sch) {struct s} : kid :=
-  match s with
-  | SRef r => fun name => ref_build e r name None
-  | SSch ty nl en any one all items pfx fmt d o =>
-      match all ++ any ++ one with
-      | [SRef r] => fun name => ref_build e r name d            (* single-reference wrapper: every other keyword is ignored *)
-      | _ => pfd c parent ty en (map (build c e parent) any) (map (build c e parent) one) (nonempty all)
-                 (option_map (build c e parent) items) (map (build c e parent) pfx) fmt d o
-      end
+(* the node itself, from its (validated) fields and the builders of its children *)
+Definition node_plain (c : cfg) (e : env) (parent : str) (ty : tyspec) (en : list jval) (any one all : list sch)
+                      (kany kone : list kid) (kitems : option akid) (kprefix : list akid) (fmt : option str) (d : option jval) (o : other) : kid :=
+  match all ++ any ++ one with
+  | [SRef r] => fun name => ref_build e r name d            (* single-reference wrapper: every other keyword is ignored *)
+  | _ => pfd c parent ty en kany kone (nonempty all) kitems kprefix fmt d o
   end.
+
+(* Schema(allOf=self.allOf) made by handle_nullable, through property_from_data *)
+Definition k_allof (c : cfg) (e : env) (parent : str) (all : list sch) : kid :=
+  fun name => match all with [SRef r] => ref_build e r name None | _ => TModel name (class_of c parent o_none name) end.
+
+(* again = true: handle_nullable runs once more on this (already validated) object before it is built; on the builders of the
+   children this is hn: same cases, same order *)
+Definition node (c : cfg) (e : env) (parent : str) (again : bool) (ty : tyspec) (nl : bool) (en : list jval) (any one all : list sch)
+                (kany kone : list kid) (kitems : option akid) (kprefix : list akid) (fmt : option str) (d : option jval) (o : other) : kid :=
+  if again && nl then
+    match ty with
+    | TyOne t => node_plain c e parent (TyList [t; JTNull]) en any one all kany kone kitems kprefix fmt d o
+    | TyList l => node_plain c e parent (TyList (if mem_jty JTNull l then l else l ++ [JTNull])) en any one all kany kone kitems kprefix fmt d o
+    | TyAbsent =>
+        match one, any, all with
+        | _ :: _, _, _ => node_plain c e parent TyAbsent en any (one ++ [null_sch]) all kany (kone ++ [k_null]) kitems kprefix fmt d o
+        | [], _ :: _, _ => node_plain c e parent TyAbsent en (any ++ [null_sch]) one all (kany ++ [k_null]) kone kitems kprefix fmt d o
+        | [], [], _ :: _ =>
+            node_plain c e parent TyAbsent en any [null_sch; SSch TyAbsent false [] [] [] all None [] None None o_none] []
+                       kany [k_null; k_allof c e parent all] kitems kprefix fmt d o
+        | [], [], [] => node_plain c e parent ty en any one all kany kone kitems kprefix fmt d o
+        end
+    end
+  else node_plain c e parent ty en any one all kany kone kitems kprefix fmt d o.
+
+Fixpoint build_g (c : cfg) (e : env) (parent : str) (s : sch) {struct s} : akid :=
+  match s with
+  | SRef r => fun _ name => ref_build e r name None
+  | SSch ty nl en any one all items pfx fmt d o =>
+      fun again =>
+        node c e parent again ty nl en any one all
+             (map (fun ch => build_g c e parent ch false) any) (map (fun ch => build_g c e parent ch false) one)
+             (option_map (build_g c e parent) items) (map (build_g c e parent) pfx) fmt d o
+  end.
+
+Definition build (c : cfg) (e : env) (parent : str) (s : sch) : kid := build_g c e parent s false.
 
 (* top = the schema sits directly under a non-Schema object *)
 Definition norm (c : cfg) (e : env) (parent : str) (top : bool) (s : sch) (name : str) : tree := build c e parent (pre_at top s) name.
 
-(* two schemas are interchangeable as nested sub-schemas when they build the same tree under every name *)
+(* two schemas are interchangeable as sub-schemas when they build the same tree under every name, validated once (nested) or
+   twice (top positions; members of a tuple array, which are revalidated when the tuple is wrapped) *)
 Definition equiv (c : cfg) (e : env) (parent : str) (a b : sch) : Prop :=
-  forall n, norm c e parent false a n = norm c e parent false b n.
+  forall top n, norm c e parent top a n = norm c e parent top b n.
 Definition oequiv (c : cfg) (e : env) (parent : str) (a b : option sch) : Prop :=
   match a, b with None, None => True | Some x, Some y => equiv c e parent x y | _, _ => False end.
 
